@@ -240,8 +240,23 @@ def _array_assert_eq(a0, a1, b0, b1):
     return Array([a0, a1]).assert_eq(Array([b0, b1]))
 
 
+def _arr(*xs):
+    from pysnark.array import Array
+    return Array(list(xs))
+
+
 IMPL_EXTRA["array_assert_eq"] = _array_assert_eq
+IMPL_EXTRA["array_add"] = lambda a0, a1, b0, b1: list((_arr(a0, a1) + _arr(b0, b1)).arr)
+IMPL_EXTRA["array_sub"] = lambda a0, a1, b0, b1: list((_arr(a0, a1) - _arr(b0, b1)).arr)
+IMPL_EXTRA["array_adds"] = lambda a0, a1, s: list((_arr(a0, a1) + s).arr)
+IMPL_EXTRA["array_scale"] = lambda a0, a1, s: list((s * _arr(a0, a1)).arr)
+IMPL_EXTRA["array_ite"] = lambda c, a0, a1, b0, b1: list(H.branching.if_then_else(c, _arr(a0, a1), _arr(b0, b1)).arr)
 IMPL.update(IMPL_EXTRA)
+REF["array_add"] = lambda a0, a1, b0, b1: [a0 + b0, a1 + b1]
+REF["array_sub"] = lambda a0, a1, b0, b1: [a0 - b0, a1 - b1]
+REF["array_adds"] = lambda a0, a1, s: [a0 + s, a1 + s]
+REF["array_scale"] = lambda a0, a1, s: [a0 * s, a1 * s]
+REF["array_ite"] = lambda c, a0, a1, b0, b1: [a0, a1] if _i(c) else [b0, b1]
 REF["array_assert_eq"] = _assert(lambda a0, a1, b0, b1: a0 == b0 and a1 == b1)
 REF["array_get"] = lambda a0, a1, a2, i: [a0, a1, a2][i] if 0 <= i < 3 else (_ for _ in ()).throw(RefRaise())
 REF["array_set"] = lambda a0, a1, a2, i, v: [v if k == i else x for k, x in enumerate([a0, a1, a2])] if 0 <= i < 3 else (_ for _ in ()).throw(RefRaise())
@@ -254,7 +269,7 @@ ASSERT2 = ["assert_lt", "assert_le", "assert_eq", "assert_ne", "assert_gt", "ass
 ASSERT1 = ["assert_zero", "assert_nonzero", "assert_positive"]
 BINARY_BOOL = ["and", "or", "xor", "eq", "ne", "lt", "le", "gt", "ge", "add", "sub", "mul", "pow"]
 UNARY_BOOL = ["invert", "neg", "pos", "abs", "check_zero"]
-VALUE_OPS = set(BINARY_INT + UNARY_INT + ["if_then_else", "if_else", "from_bits3"])
+VALUE_OPS = set(BINARY_INT + UNARY_INT + ["if_then_else", "if_else", "from_bits3", "array_add", "array_sub", "array_adds", "array_scale", "array_ite"])
 
 
 def arity(name):
@@ -279,7 +294,7 @@ def in_domain(name, args, n):
     if any(not (lo <= a <= hi) for a in ints):
         return False
     anyb = any(_isb(a) for a in args)
-    if name in ("add", "sub", "mul", "neg", "pos", "from_bits3"):
+    if name in ("add", "sub", "mul", "neg", "pos", "from_bits3", "array_add", "array_sub", "array_adds", "array_scale", "array_ite"):
         return True
     if name in ("lt", "le", "eq", "ne", "gt", "ge"):
         if anyb and any(a not in (0, 1) for a in ints):
